@@ -230,3 +230,44 @@ Theorem C07_ndt_leap_sub_partial : Proofs.C03.add_days_ok -> forall a d,
     end.
 Proof. exact Proofs.C07Ndt.ndt_leap_sub. Qed.
 Print Assumptions C07_ndt_leap_sub_partial.
+
+(* the same two statements with the premise discharged: [add_days_ok] is C03's theorem
+   C03_add_days_spec (Proofs/C03.v [add_days_holds], resting on Proofs/C08AddDays.v [add_days_spec]
+   for every i32 day count), so date-time +- duration with a leap-second operand is unconditional *)
+Theorem C07_ndt_leap_add : forall a d,
+  Proofs.C03.vdate (DateTime.nd_date a) -> tvalid (DateTime.nd_time a) -> valid d ->
+  exists r, DateTime.ndt_checked_add_signed a d = Val r /\
+    match r with
+    | Some b =>
+        DateTime.nd_time b = fst (add_result (tsecs (DateTime.nd_time a)) (tfrac (DateTime.nd_time a)) (ns d)) /\
+        Proofs.C03.vdate (DateTime.nd_date b) /\
+        Proofs.C03.dn (DateTime.nd_date b) = Proofs.C03.dn (DateTime.nd_date a)
+          + snd (add_result (tsecs (DateTime.nd_time a)) (tfrac (DateTime.nd_time a)) (ns d)) / 86400
+    | None => dn_in_range (Proofs.C03.dn (DateTime.nd_date a)
+          + snd (add_result (tsecs (DateTime.nd_time a)) (tfrac (DateTime.nd_time a)) (ns d)) / 86400) = false
+    end.
+Proof. exact Proofs.C07Ndt.ndt_leap_add_u. Qed.
+Print Assumptions C07_ndt_leap_add.
+Theorem C07_ndt_leap_sub : forall a d,
+  Proofs.C03.vdate (DateTime.nd_date a) -> tvalid (DateTime.nd_time a) -> valid d ->
+  exists r, DateTime.ndt_checked_sub_signed a d = Val r /\
+    match r with
+    | Some b =>
+        DateTime.nd_time b = fst (add_result (tsecs (DateTime.nd_time a)) (tfrac (DateTime.nd_time a)) (- ns d)) /\
+        Proofs.C03.vdate (DateTime.nd_date b) /\
+        Proofs.C03.dn (DateTime.nd_date b) = Proofs.C03.dn (DateTime.nd_date a)
+          + snd (add_result (tsecs (DateTime.nd_time a)) (tfrac (DateTime.nd_time a)) (- ns d)) / 86400
+    | None => dn_in_range (Proofs.C03.dn (DateTime.nd_date a)
+          + snd (add_result (tsecs (DateTime.nd_time a)) (tfrac (DateTime.nd_time a)) (- ns d)) / 86400) = false
+    end.
+Proof. exact Proofs.C07Ndt.ndt_leap_sub_u. Qed.
+Print Assumptions C07_ndt_leap_sub.
+(* the premises are inhabited: 2016-12-31T23:59:59 plus one second of leap fraction *)
+Example C07_ndt_leap_example :
+  Proofs.C03.vdate Proofs.C07Ndt.leap_date /\ tvalid (mk_time 86399 1500000000) /\ valid (mk_td 1 0) /\
+  exists b, DateTime.ndt_checked_add_signed (DateTime.mk_ndt Proofs.C07Ndt.leap_date (mk_time 86399 1500000000)) (mk_td 1 0)
+              = Val (Some b) /\
+    DateTime.nd_time b = mk_time 0 500000000 /\
+    Proofs.C03.dn (DateTime.nd_date b) = Proofs.C03.dn Proofs.C07Ndt.leap_date + 1.
+Proof. exact Proofs.C07Ndt.ndt_leap_example. Qed.
+Print Assumptions C07_ndt_leap_example.
